@@ -6,7 +6,7 @@ from .symexec import Exec, Obligation, Unsupported
 from .contract import REG
 
 
-DEPENDS = {'wordx': ['word'], 'regexp': ['word', 'wordx'], 'tm': ['word', 'wordx'], 'dfa': ['word'], 'nfa': ['word'], 'pda': ['word'], 'cfg': ['word'], 'iso': ['dfa'], 'dfax': ['dfa', 'nfa', 'wordx'], 'nfax': ['nfa', 'word', 'wordx'], 'nfastar': ['nfax', 'regexp'], 'pdax': ['pda', 'word'], 'gnfa': ['regexp', 'word', 'wordx'], 'gnfadfa': ['gnfa', 'dfa', 'dfax'], 'thompson': ['nfastar', 'naming'], 'nerode': ['dfa', 'word', 'wordx', 'dfax'], 'quot': ['nerode', 'naming'], 'subset': ['dfa', 'nfa', 'naming']}
+DEPENDS = {'wordx': ['word'], 'regexp': ['word', 'wordx'], 'tm': ['word', 'wordx'], 'dfa': ['word'], 'nfa': ['word'], 'pda': ['word'], 'cfg': ['word'], 'cfgx': ['cfg'], 'iso': ['dfa'], 'dfax': ['dfa', 'nfa', 'wordx'], 'nfax': ['nfa', 'word', 'wordx'], 'nfastar': ['nfax', 'regexp'], 'pdax': ['pda', 'word'], 'gnfa': ['regexp', 'word', 'wordx'], 'gnfadfa': ['gnfa', 'dfa', 'dfax'], 'thompson': ['nfastar', 'naming'], 'nerode': ['dfa', 'word', 'wordx', 'dfax'], 'quot': ['nerode', 'naming'], 'subset': ['dfa', 'nfa', 'naming']}
 
 
 def theories_of(c):
